@@ -569,7 +569,13 @@ def mate_roots(run, n):
     rng = run.rng
     fixed = ["6k1/R7/6K1/8/8/8/8/8 w - - 0 1", "8/8/8/8/8/6k1/r7/6K1 b - - 0 1", "6k1/4R3/6K1/q7/8/8/8/8 w - - 0 1",
              "8/8/8/8/Q7/6k1/4r3/6K1 b - - 0 1", "6k1/8/6K1/q3R3/8/8/8/8 w - - 0 1", "8/8/8/8/Q3r3/6k1/8/6K1 b - - 0 1",
-             "k7/6R1/5R1P/8/8/8/8/K7 w - - 0 1", "k7/8/8/8/8/5r1p/6r1/K7 b - - 0 1"]
+             "k7/6R1/5R1P/8/8/8/8/K7 w - - 0 1", "k7/8/8/8/8/5r1p/6r1/K7 b - - 0 1",
+             # mates with minor pieces only (the defender's own man blocks the flight square), and other bare-material mates
+             "kn6/8/1K6/3N4/8/8/8/8 w - - 0 1", "kb6/8/1K6/8/8/8/8/5B2 w - - 0 1", "5b2/8/8/8/8/1k6/8/KB6 b - - 0 1",
+             "k1K5/b7/8/3N4/8/8/8/8 w - - 0 1", "6nk/8/6K1/4N3/8/8/8/8 w - - 12 40", "7k/5K2/8/6N1/8/8/8/5B2 w - - 0 1",
+             "k7/2K5/8/1N6/8/8/8/7B w - - 3 9", "7k/5K1P/8/8/8/8/8/8 w - - 0 1", "6bk/5K1p/7N/8/8/8/8/8 w - - 0 1",
+             "8/8/8/8/8/7n/5k1P/6BK b - - 0 1"]
+    fixed = fixed + [G.mirror_fen(f) for f in fixed[8:]]
     cands = list(fixed)
     for _ in range(n * 150):
         men = rng.choice(["KQk", "KRk", "KRRk", "KQkr", "KRkp", "KQPkp", "KRBkn", "KQkq", "KNBkp", "KRRkrb"])
@@ -685,13 +691,14 @@ def check_C19(run):
     cands = [e["fen"] for e in P["pool"]]
     rng.shuffle(cands)
     cands = cands[: (2500 if th else 350)]
+    cands = [e["fen"] for e in P["pool"] if e["cls"] in ("pawnwedge", "ep", "promo")][: (400 if th else 120)] + cands
     exact = vlib.run_model_par([f"qvalue\t{f}\t20000" for f in cands])
     reqs, meta = [], []
     for f, ex in zip(cands, exact):
         if ex == "budget" or ex.startswith("ERROR"):
             continue
         v = int(ex)
-        wins = [(-c["INF"], c["INF"]), (v - 1, v), (v, v + 1), (v - 1, v + 1), (v + 10, v + 300), (v - 300, v - 10),
+        wins = [(-c["INF"], c["INF"]), (v - 1, v), (v, v + 1), (v - 1, v + 1), (v + 10, v + 300), (v - 300, v - 10), (v - 20, v - 19), (v - 60, v + 5),
                 (v - rng.randrange(1, 400), v + rng.randrange(1, 400)), (-c["INF"], v), (v, c["INF"])]
         for a, b in wins:
             reqs.append(f"qs\t{f}\t{a}\t{b}")
